@@ -198,7 +198,9 @@ StringDictionaryRPHTFC::StringDictionaryRPHTFC(IteratorDictString *it,
     for (bucket = 1; bucket <= buckets; bucket++) {
       // Checking the available space in textStrings and
       // realloc if required
-      while ((bytesStrings + (bucketsize * 1000)) > reservedStrings)
+      while ((bytesStrings + 4 * (size_t)maxlength +
+              4 * (beginnings[bucket] - beginnings[bucket - 1]) + 8) >
+             reservedStrings)
         reservedStrings = Reallocate(&textStrings, reservedStrings);
 
       bytes = 0;
